@@ -56,7 +56,9 @@ def _wrap_groups(acl, spans):
             continue
         out.extend(items[i:lo])
         chunk = items[lo:lo + ln]
-        out.append(AceGroup(items=chunk, platform=acl.platform))
+        # an explicit block carries the same settings as the ACL it is put into
+        out.append(AceGroup(items=chunk, platform=acl.platform, version=str(acl.version), port_nr=acl.port_nr,
+                            protocol_nr=acl.protocol_nr, max_ncwb=acl.max_ncwb))
         i = lo + len(chunk)
     out.extend(items[i:])
     acl.items = out
